@@ -5,7 +5,7 @@
    placement is the hash the library computes (C15_hash_is_amiga_hash).  That every image produced by a history
    decodes, and decodes to the model's tree and bytes, is judged per explored history (checks/c03.py). *)
 From Coq Require Import ZArith List Bool String.
-From ADF Require Import CPrelude Generated.Layout Generated.Leaf Spec.Names Spec.Decode Proofs.LayoutP Proofs.NamesP Proofs.ChecksumP.
+From ADF Require Import CPrelude Generated.Layout Generated.Leaf Spec.Names Spec.Decode Proofs.LayoutP Proofs.NamesP Proofs.ChecksumP Model.FileMap Proofs.FileMapP.
 Import ListNotations.
 Local Open Scope string_scope.
 Local Open Scope Z_scope.
@@ -97,6 +97,18 @@ Example C03_checksum_example :
   c_adfNormalSum 200 (repeat 0 500 ++ [1; 2; 3; 4; 255; 255; 255; 255; 0; 0; 0; 9]) 20 512 = Some 4278058228 /\
   sum_ok (put_be32 (repeat 0 500 ++ [1; 2; 3; 4; 255; 255; 255; 255; 0; 0; 0; 9]) 20 4278058228) = true.
 Proof. vm_compute. split; reflexivity. Qed.
+(* the shape of a file's block lists (Model/FileMap.enc, tied by checks/filemapcorr.py) is the one the format demands and the
+   decoder checks: min(72, n) pointers in the header, one extension block per started group of 72 beyond it, every table
+   full except the last, which holds the remaining 1..72 pointers; concatenated they are the file's data blocks in order *)
+Theorem C03_block_list_shape : forall (l es : list Z), List.length es = nexts (List.length l) ->
+  List.length (enc_hdr l) = Nat.min SLOTS (List.length l) /\
+  List.length (enc_exts l es) = nexts (List.length l) /\
+  (forall j e t, nth_error (enc_exts l es) j = Some (e, t) ->
+     nth_error es j = Some e /\
+     List.length t = (if Nat.ltb (S j) (nexts (List.length l)) then SLOTS else List.length l - SLOTS - SLOTS * j)%nat /\ (1 <= List.length t <= SLOTS)%nat) /\
+  List.app (enc_hdr l) (List.concat (List.map snd (enc_exts l es))) = l.
+Proof. exact enc_shape. Qed.
+
 Print Assumptions C03_layout_root.
 Print Assumptions C03_layout_entry.
 Print Assumptions C03_layout_filehdr.
@@ -109,3 +121,4 @@ Print Assumptions C03_constants.
 Print Assumptions C03_hash_placement.
 Print Assumptions C03_checksum_accepted.
 Print Assumptions C03_checksum_unique.
+Print Assumptions C03_block_list_shape.
